@@ -23,78 +23,46 @@ func retryStageRule(o *Ob) {
 	})
 	// --- what is sent
 	sentArg := nt.Common().Args[len(nt.Common().Args)-1]
-	for {
-		if ct, isCT := sentArg.(*ssa.ChangeType); isCT {
-			sentArg = ct.X
+	resolvedLit := LRe(`\(\(\*model\.Alert\)\.Status\(p2\[i\](\.Alert)?\) == "resolved"\)`, true)
+	for _, pol := range []bool{true, false} {
+		cut := e.CutContradicting(SR)
+		tag := "on"
+		if !pol {
+			cut = e.CutContradicting(SR.Neg())
+			tag = "off"
+		}
+		r := (&Walk{Fn: fn, Cut: cut, Barrier: IsInstr(nt)}).FromEntry()
+		if !o.Check(r.Has(nt), "sent-unset|"+tag, "with send_resolved "+tag+" the integration is never notified", nt) {
 			continue
 		}
-		break
-	}
-	ld, ok := sentArg.(*ssa.UnOp)
-	var cell *ssa.Alloc
-	if ok {
-		cell, _ = ld.X.(*ssa.Alloc)
-	}
-	if o.Check(cell != nil, "sent-var", "the notified slice is not the stage's 'sent' variable", nt) {
-		sts, _ := e.boxStores(cell)
-		resolvedLit := LRe(`\(\(\*model\.Alert\)\.Status\(p2\[i\](\.Alert)?\) == "resolved"\)`, true)
-		for _, pol := range []bool{true, false} {
-			cut := e.CutContradicting(SR)
-			if !pol {
-				cut = e.CutContradicting(SR.Neg())
+		leaves := e.ValsAt(r, nt, sentArg)
+		o.Check(len(leaves) >= 1, "sent-unset|"+tag, "the notified slice is never set on this path", nt)
+		for _, lf := range leaves {
+			v := e.X(fn, lf)
+			if pol {
+				o.SiteS("send_resolved on: sent := " + v)
+				o.Check(v == "p2", "sent-all", "with send_resolved the whole batch must be sent, sent is "+v, nt)
+				continue
 			}
-			r := (&Walk{Fn: fn, Cut: cut, Barrier: IsInstr(nt)}).FromEntry()
-			n := 0
-			for _, st := range sts {
-				if !r.Has(st) {
-					continue
-				}
-				n++
-				v := e.X(fn, st.Val)
-				if pol {
-					o.Site(st, "send_resolved on: sent := "+v)
-					o.Check(v == "p2", "sent-all", "with send_resolved the whole batch must be sent, sent is "+v, st)
-					continue
-				}
-				o.Site(st, "send_resolved off: sent := "+v)
-				c, isApp := st.Val.(*ssa.Call)
-				if !o.Check(isApp && isBuiltinCall("append")(c), "sent-filter-shape", "with send_resolved off the notified slice must be built by appending the firing alerts to a fresh slice, is "+v, st) {
-					continue
-				}
-				// base: the variable itself (fresh), never the input batch
-				base := c.Call.Args[0]
-				alias := e.DerivesFrom(base, false, func(x ssa.Value) bool {
-					if p, isP := x.(*ssa.Parameter); isP && p == fn.Params[3] {
-						// only an alias if it gets there other than through the send_resolved-on store
-						return false
-					}
-					if sl, isS := x.(*ssa.Slice); isS {
-						if p, isP := sl.X.(*ssa.Parameter); isP && p == fn.Params[3] {
-							return true
-						}
-					}
-					return false
-				})
-				o.Check(!alias, "sent-alias", "the filtered slice re-uses the backing array of the input batch: sibling integrations of the receiver share that array and would see firing alerts overwrite resolved ones", st)
-				els, _ := varargElems(c.Call.Args[1])
-				o.Check(len(els) == 1 && e.X(fn, els[0]) == "p2[i]", "sent-elem", "only the alert under test may be appended", st)
-				o.Guarded(c, "sent-firing-only", "notifying an alert although send_resolved is off", resolvedLit.Neg())
-				if l := e.LoopOf(c); o.Check(l != nil, "sent-loop", "the batch is not filtered in a loop", c) {
+			o.SiteS("send_resolved off: sent := " + v)
+			if IsEmptySlice(lf) {
+				continue
+			}
+			c, isApp := lf.(*ssa.Call)
+			if !o.Check(isApp && isBuiltinCall("append")(c), "sent-filter-shape", "with send_resolved off the notified slice must be built by appending the firing alerts to a fresh slice, is "+v, nt) {
+				continue
+			}
+			bases, parts := e.AppendPartsUnder(r, lf)
+			for _, bs := range bases {
+				o.Check(IsEmptySlice(bs), "sent-alias", "the filtered slice is seeded with "+e.X(fn, bs)+": re-using the backing array of the input batch lets sibling integrations of the receiver see firing alerts overwrite resolved ones", nt)
+			}
+			for _, pt := range parts {
+				o.Check(!pt.Spread && e.X(fn, pt.V) == "p2[i]", "sent-elem", "only the alert under test may be appended", pt.Call)
+				o.Guarded(pt.Call, "sent-firing-only", "notifying an alert although send_resolved is off", resolvedLit.Neg())
+				if l := e.LoopOf(pt.Call); o.Check(l != nil, "sent-loop", "the batch is not filtered in a loop", pt.Call) {
 					coll, _ := e.RangeOver(l)
-					o.Check(coll == "p2" && len(e.EarlyExits(l)) == 0, "sent-range", "every alert of the batch must be considered", c)
-					o.Check(!loopBackWithout(o, l, IsInstr(c), e.CutContradicting(resolvedLit.Neg())), "sent-firing-dropped", "a firing alert can be left out of the notification", c)
-				}
-			}
-			o.Check(n >= 1, "sent-unset|"+map[bool]string{true: "on", false: "off"}[pol], "the notified slice is never set on this path", nt)
-		}
-		// direct aliasing store: sent = alerts[:0] or similar on the send_resolved-off path
-		rOff := (&Walk{Fn: fn, Cut: e.CutContradicting(SR.Neg()), Barrier: IsInstr(nt)}).FromEntry()
-		for _, st := range sts {
-			if rOff.Has(st) {
-				if sl, isS := st.Val.(*ssa.Slice); isS {
-					if p, isP := sl.X.(*ssa.Parameter); isP && p == fn.Params[3] {
-						o.Fail("sent-alias", "the filtered slice re-uses the backing array of the input batch: sibling integrations of the receiver share that array and would see firing alerts overwrite resolved ones", st)
-					}
+					o.Check(coll == "p2" && len(e.EarlyExits(l)) == 0, "sent-range", "every alert of the batch must be considered", pt.Call)
+					o.Check(!loopBackWithout(o, l, IsInstr(pt.Call), e.CutContradicting(resolvedLit.Neg())), "sent-firing-dropped", "a firing alert can be left out of the notification", pt.Call)
 				}
 			}
 		}
